@@ -13,28 +13,7 @@
 (*                 (units of 2^-16 ns)                                      *)
 (* time interval (wire, 64 bit scaled ns)  [neg, m] with m[5] = 0           *)
 (***************************************************************************)
-EXTENDS Naturals, Integers, Sequences, TLC, Json
-
-B24 == 16777216
-B16 == 65536
-NS == 1000000000
-Zero == <<0, 0, 0, 0, 0>>
-
-Add(a, b) ==       \* returns [m, carry]
-  LET f0 == a[5] + b[5]                 c0 == f0 \div B16
-      f1 == a[4] + b[4] + c0            c1 == f1 \div B16
-      n  == a[3] + b[3] + c1            c2 == n \div NS
-      l  == a[2] + b[2] + c2            c3 == l \div B24
-      h  == a[1] + b[1] + c3
-  IN [m |-> <<h % B24, l % B24, n % NS, f1 % B16, f0 % B16>>, carry |-> h >= B24]
-Less(a, b) == \E i \in 1..5 : a[i] < b[i] /\ \A j \in 1..(i - 1) : a[j] = b[j]
-Sub(a, b) ==       \* a >= b
-  LET f0 == a[5] + B16 - b[5]           b0 == IF f0 < B16 THEN 1 ELSE 0
-      f1 == a[4] + B16 - b[4] - b0      b1 == IF f1 < B16 THEN 1 ELSE 0
-      n  == a[3] + NS - b[3] - b1       b2 == IF n < NS THEN 1 ELSE 0
-      l  == a[2] + B24 - b[2] - b2      b3 == IF l < B24 THEN 1 ELSE 0
-      h  == a[1] - b[1] - b3
-  IN <<h, l % B24, n % NS, f1 % B16, f0 % B16>>
+EXTENDS TimeLimbs, TLC, Json     \* B24, B16, NS, Zero, Add, Less, Sub
 
 \* Time + Duration: exact while the result is a time of the PTP range; outside it the result must not wrap around
 \* (statime clamps): "under" / "over"
